@@ -135,7 +135,10 @@ def callFn (d : Doc) (c : Ctx) (name : String) (args : List (Value F)) : Except 
   | "position", [] => .ok (.num (ofNat c.pos))
   | "count", [.nodes l] => .ok (.num (ofNat l.length))
   | "count", [_] => .error (.typeErr "count")
-  | "sum", [.nodes l] => .ok (.num (sumNodes d l))
+  | "sum", [.nodes l] =>
+    -- the property states sum() over numeric nodes only; elsewhere the oracle is silent
+    if l.any (fun r => isNaN (strToNum (F := F) (stringValue d r))) then .error (.unsupported "sum over non-numeric nodes")
+    else .ok (.num (sumNodes d l))
   | "sum", [_] => .error (.typeErr "sum")
   | "local-name", [] => .ok (.str (localName d c.node))
   | "local-name", [.nodes l] => .ok (.str (match l with | [] => "" | r :: _ => localName d r))
@@ -193,7 +196,7 @@ only where the property does (non-negative integral operands, non-zero divisor).
 def modSpec (x y : F) : Option F :=
   match toInt x, toInt y with
   | some a, some b =>
-    if 0 ≤ a ∧ 0 < b ∧ NumAlg.eq (ofInt a) x ∧ NumAlg.eq (ofInt b) y then some (ofInt (a % b)) else none
+    if 0 ≤ a ∧ 0 < b ∧ NumAlg.eq (ofInt a) x ∧ NumAlg.eq (ofInt b) y then some (fmod x y) else none
   | _, _ => none
 
 def eval (d : Doc) : Ast → Ctx → Except Err (Res F)
